@@ -433,6 +433,7 @@ type scriptItem struct {
 	err    error
 	blocks bool
 	sleeps bool
+	adv    int64 // the invocation advances the virtual clock of the breakers / rate limiters by this much
 }
 
 func parseScript(text string) []scriptItem {
@@ -446,6 +447,11 @@ func parseScript(text string) []scriptItem {
 		val, _ := strconv.Atoi(f[0])
 		rest := it[len(f[0])+1:]
 		blocks, sleeps := false, false
+		adv := int64(0)
+		if i := strings.LastIndex(rest, ",+"); i >= 0 {
+			adv = atoi(rest[i+2:])
+			rest = rest[:i]
+		}
 		if strings.HasSuffix(rest, ",B") {
 			blocks = true
 			rest = strings.TrimSuffix(rest, ",B")
@@ -454,7 +460,7 @@ func parseScript(text string) []scriptItem {
 			sleeps = true
 			rest = strings.TrimSuffix(rest, ",S")
 		}
-		out = append(out, scriptItem{val, parseErrTree(rest), blocks, sleeps})
+		out = append(out, scriptItem{val, parseErrTree(rest), blocks, sleeps, adv})
 	}
 	return out
 }
@@ -522,6 +528,7 @@ func (s *composeSlice) run(async bool, ck string, scriptText string, x string) s
 		if len(script) > 0 {
 			o = script[0]
 			script = script[1:]
+			s.now += o.adv // time passes while the function runs: the next policy decision sees the later clock
 		}
 		fnMu.Unlock()
 		if o.blocks {
@@ -816,6 +823,11 @@ func genCompose(r *rand.Rand, n int, tier string, emit func(string) string) {
 					e = pick(r, "L1:0", "L2:0", "L7:0", "L3:1")
 				}
 				it := fmt.Sprintf("%d,%s", r.Intn(3), e)
+				advSuffix := ""
+				if !hasHedge && (nb > 0 || nrl > 0) && r.Intn(3) == 0 {
+					// time passes during the execution: a breaker's delay elapses between two attempts, a limiter's next permit becomes free
+					advSuffix = fmt.Sprintf(",+%d", pick(r, 1, 10, 50, 99, 100, 101, 200, 1000))
+				}
 				// blocking outcomes must be released by something: an enclosing Timeout, or (hedge accepting any result) a
 				// later attempt — at most maxHedges blocked attempts in the whole script keeps every hedge execution finite
 				if hasMd {
@@ -831,7 +843,7 @@ func genCompose(r *rand.Rand, n int, tier string, emit func(string) string) {
 					blockedSeen = true
 					blockedCount++
 				}
-				parts = append(parts, it)
+				parts = append(parts, it+advSuffix)
 			}
 			_ = blockedSeen
 			st := "-"
